@@ -373,6 +373,14 @@ pub fn silence_stderr() {
     }
 }
 
+/// serde_json refuses documents nested deeper than 128 levels; generated programs (G-AST) are deeper
+pub fn parse_json_deep(txt: &str) -> Result<Value, serde_json::Error> {
+    use serde::Deserialize;
+    let mut de = serde_json::Deserializer::from_str(txt);
+    de.disable_recursion_limit();
+    Value::deserialize(&mut de)
+}
+
 pub fn bits_eq(a: f64, b: f64) -> bool {
     (a.is_nan() && b.is_nan()) || a.to_bits() == b.to_bits()
 }
